@@ -235,7 +235,7 @@ def run(ctx, model=None):
     ctx.extra["rule"] = RULE
     rng = random.Random(ctx.seed * 275604541 + 15)
     seeds = [0, 1, 47, 999132423, 2 ** 32, 2 ** 32 + 47, 2 ** 64 + 5, 10 ** 30] + \
-        [rng.randrange(10 ** 6) for _ in range(10 if ctx.quick() else 3000)]
+        [rng.randrange(10 ** 6) for _ in range(10 if ctx.quick() else 20000)]
     caller_mutation(ctx)
     shapes = [(1, 1), (1, 2), (2, 1), (3, 3), (5, 5), (2, 7)] if ctx.quick() else \
         [(1, 1), (1, 2), (2, 1), (3, 3), (5, 5), (2, 7), (10, 20), (40, 10), (1, 50), (50, 1)]
